@@ -38,6 +38,18 @@ def build(kind, log):
     elif kind == "valgrind":
         # plain build, run under valgrind
         return os.path.join(BUILD, "plain", "release", "vmon"), "plain build"
+    elif kind in ("asan-bin", "tsan-bin"):
+        # the real adlt binary (feature verif_hooks) built with a sanitizer; the plain harness drives it
+        san = "address" if kind == "asan-bin" else "thread"
+        env = dict(BASE_ENV, RUSTFLAGS=f"-Zsanitizer={san}" + (" -Cforce-frame-pointers=yes" if san == "address" else ""))
+        td = os.path.join(BUILD, "adlt-" + kind)
+        cmd = ["cargo", "+nightly", "build", "--release", "--offline", "--bin", "adlt", "--features", "verif_hooks", "--manifest-path", "/repo/Cargo.toml", "--target", TARGET, "--target-dir", td]
+        if san == "thread":
+            cmd.insert(5, "-Zbuild-std")
+        rc, out = _run(cmd, env=env, cwd="/repo", timeout=3600)
+        if rc != 0:
+            return None, f"{kind} build failed: {out[-1500:]}"
+        return os.path.join(td, TARGET, "release", "adlt"), f"{kind} build {time.time() - t:.0f}s"
     else:
         raise RuntimeError(kind)
     rc, out = _run(cmd, env=env, cwd=HARNESS, timeout=3600)
@@ -113,6 +125,12 @@ def run_phase(ph, pid, tier, seed, tmpdir, log):
         elif kind == "tsan":
             env["TSAN_OPTIONS"] = "halt_on_error=1:exitcode=66:second_deadlock_stack=1"
             base = [exe]
+        elif kind in ("asan-bin", "tsan-bin"):
+            env["ASAN_OPTIONS"] = "detect_leaks=0:halt_on_error=1:abort_on_error=1:symbolize=1"
+            env["ASAN_SYMBOLIZER_PATH"] = shutil.which("llvm-symbolizer") or shutil.which("llvm-symbolizer-14") or ""
+            env["TSAN_OPTIONS"] = "halt_on_error=1:exitcode=66"
+            base = [os.path.join(BUILD, "plain", "release", "vmon")]
+            args = args + [f"adlt_bin={exe}"]
         else:
             base = ["valgrind", "--error-exitcode=99", "-q", "--num-callers=30", exe]
         cwd = tmpdir
